@@ -1,22 +1,24 @@
 #!/bin/bash
-# Verifies every seeded change from the sub-agents in a scratch worktree: patch applies to /repo HEAD, the repository test suite still
-# passes with it, the demonstration fails with it and passes without it. Writes /tmp/seedverify/<id>.txt
+# usage: tools/verify_seeds.sh [seed ids...]   (default: every directory of /tmp/seedstage)
+# Verifies seeded changes in scratch worktrees of /repo (never /repo itself): the patch applies to /repo HEAD, the repository test suite
+# still passes with it, the demonstration fails with it and passes without it. Writes /tmp/seedverify/<id>.txt
+ST=/tmp/seedstage
 mkdir -p /tmp/seedverify
-for d in /tmp/seed/out/C*/m*; do
-  pid=$(basename $(dirname $d)); m=$(basename $d); id=${pid}-${m}
-  P=$d/patch.diff; [ -f $d/patch.rebased.diff ] && P=$d/patch.rebased.diff
+ids="$@"; [ -z "$ids" ] && ids=$(ls $ST)
+for id in $ids; do
+  d=$ST/$id; P=$d/patch.diff
   WT=$(mktemp -d /tmp/svw.XXXXXX)
   git -C /repo worktree add -q --detach $WT HEAD || continue
   ( cd $WT
-    base_demo=$(cd $d && PYTHONPATH=$WT timeout 600 /venv/bin/python demo.py $WT >/dev/null 2>&1; echo $?)
+    base_demo=$(cd $d && PYTHONPATH=$WT timeout 900 /venv/bin/python demo.py $WT >/dev/null 2>&1; echo $?)
     if git apply $P 2>/dev/null || patch -p1 -F3 -s < $P; then applied=yes; else applied=no; fi
     if [ $applied = yes ]; then
-      git diff > /tmp/seedverify/$id.patch
+      git diff > $d/patch.applied.diff
       tests=$(timeout 900 /venv/bin/python -m pytest -q -p no:cacheprovider 2>&1 | tail -1)
-      mut_demo=$(cd $d && PYTHONPATH=$WT timeout 600 /venv/bin/python demo.py $WT >/dev/null 2>&1; echo $?)
+      mut_demo=$(cd $d && PYTHONPATH=$WT timeout 900 /venv/bin/python demo.py $WT >/dev/null 2>&1; echo $?)
     fi
     echo "$id applied=$applied tests='$tests' demo_without=$base_demo demo_with=$mut_demo" > /tmp/seedverify/$id.txt
   )
   git -C /repo worktree remove --force $WT; rm -rf $WT
+  cat /tmp/seedverify/$id.txt
 done
-cat /tmp/seedverify/*.txt
